@@ -291,6 +291,15 @@ def main():
 def run(ctx, P, args):
     if not step_translate(ctx):
         print("infrastructure: translator failed:", ctx.translate.get("error", "")[-800:])
+        drift = source_drift()
+        if drift:
+            # the tables of a changed tree cannot be translated: the theorems cannot be re-checked against what the code says now
+            path = write_replay(ctx, {"property": ctx.prop, "kind": "obligation",
+                                      "what": "tools/translate.py cannot translate the tables of this tree, whose source differs from the pinned one: "
+                                              "the theorems cannot be re-checked against the code",
+                                      "source_files_differing_from_pinned": drift, "translator_error": ctx.translate.get("error", "")[-3000:]})
+            print(f"VIOLATION property={ctx.prop} replay={path} no-failing-input-found")
+            return 1
         return 2
     bad = step_build(ctx, P["targets"], clean=(ctx.tier == "thorough" and os.environ.get("VERIF_NO_CLEAN") != "1"))
     if bad == "driver":
